@@ -4394,7 +4394,13 @@ func (r *RoutingPolicy) AddDefinedSet(s DefinedSet, replace bool) error {
 	if m, ok := r.definedSetMap[s.Type()]; !ok {
 		return fmt.Errorf("invalid defined-set type: %d", s.Type())
 	} else {
-		if d, ok := m[s.Name()]; ok && !replace {
+		if d, ok := m[s.Name()]; ok {
+			// Conditions of existing statements hold a pointer to the set:
+			// it has to be updated in place, a new map entry would leave
+			// them evaluating the old contents.
+			if replace {
+				return d.Replace(s)
+			}
 			if err := d.Append(s); err != nil {
 				return err
 			}
